@@ -3,7 +3,7 @@
    `shuf` is ANY function returning a permutation of its argument. *)
 From Coq Require Import ZArith List Bool Permutation Sorted.
 From Common Require Import Res.
-From Core Require Import World Model Step ListLemmas Reach Proofs_C01.
+From Core Require Import World Model Step ListLemmas Reach Proofs_C01 Proofs_C01b.
 Import ListNotations.
 Open Scope Z_scope.
 
@@ -146,3 +146,35 @@ Theorem C01_index_of_entry :
   /\ (py_index x (World.tl w) = None -> ~ In x (World.tl w)).
 Proof. exact index_of_entry_lemma. Qed.
 Print Assumptions C01_index_of_entry.
+
+(* add() running into max_tracklist_length (`fits` = the tracks that still fit, k the first one
+   that does not): the entries that fit are inserted as one contiguous block with consecutive
+   fresh IDs, the version is bumped and tracklist_changed announced for them, the call raises
+   TracklistFull, nothing of the rest is inserted, the length is exactly the maximum; when
+   nothing fits, nothing at all changes. *)
+Theorem C01_add_overflow :
+  forall shuf fuel (fits : list track) (k : track) (over : list track) pos w,
+  existsb (fun t => t <? 0) (fits ++ k :: over) = false ->
+  (match pos with Some p => 0 <= p | None => True end) ->
+  zlen (World.tl w) + zlen fits = max_len w ->
+  let new := fresh_block (next_tlid w) fits in
+  exists w', run_op shuf fuel (Add (fits ++ k :: over) pos) w = (Raise TracklistFull, w')
+    /\ World.tl w' = (match pos with
+                      | Some p => firstn (Z.to_nat p) (World.tl w) ++ new ++ skipn (Z.to_nat p) (World.tl w)
+                      | None => World.tl w ++ new
+                      end)
+    /\ next_tlid w' = next_tlid w + zlen fits
+    /\ zlen (World.tl w') = max_len w
+    /\ (fits = [] -> w' = w)
+    /\ (fits <> [] -> version w < version w'
+                      /\ exists evs, events w' = evs ++ events w /\ In EvTracklistChanged evs).
+Proof. exact add_overflow_lemma. Qed.
+Print Assumptions C01_add_overflow.
+
+Example C01_add_overflow_example :
+  let w := run_world shuf_concrete 10 (init_world 3 [Playable; Playable; Playable; Playable] [None; None; None; None] [] None None)
+             [Add [0] None] in
+  let '(r, w') := run_op shuf_concrete 10 (Add [1; 2; 3; 0] (Some 0)) w in
+  r = Raise TracklistFull /\ map tlid (World.tl w') = [2; 3; 1] /\ version w' = version w + 1 /\ next_tlid w' = 4.
+Proof. vm_compute. repeat split; reflexivity. Qed.
+Print Assumptions C01_add_overflow_example.
